@@ -7,9 +7,10 @@ from props import c05
 from harness import pipeline as PL, solver as S
 
 SPEC = {
-    "gen": ["Rotations", "GetHkl", "Crystal"],
-    "modules": ["DiffcalcProofs.Props.C11", "DiffcalcProofs.Props.C08Miscut"],
-    "theorems": {"DiffcalcProofs.Props.C08Miscut": ["C08.getMiscut_total"], "DiffcalcProofs.Props.C11": [
+    "gen": ["Rotations", "GetHkl", "Crystal", "UtilLeaf", "SolverLeaf"],
+    "modules": ["DiffcalcProofs.Props.C11", "DiffcalcProofs.Props.C08Miscut", "DiffcalcProofs.Props.TieSolver"],
+    "theorems": {"DiffcalcProofs.Props.TieSolver": ["TieSolver.small_generated", "TieSolver.bound_generated", "TieSolver.sign_generated", "TieSolver.chiAndQaz_generated"],
+        "DiffcalcProofs.Props.C08Miscut": ["C08.getMiscut_total"], "DiffcalcProofs.Props.C11": [
         "C11.c11_getPosition", "C11.getPosition_noLeak", "C11.getPosition_nonempty", "C11.hklToPosition_noLeak", "C11.noLeak_candidates",
         "C11.virtualAngles_total", "C11.noLeak_ttheta", "C11.calcN_total", "C11.angleBetween_total", "C11.noLeak_detSampleReference",
         "C11.noLeak_twoSampleDetector", "C11.noLeak_twoSampleReference", "C11.noLeak_threeSample", "C11.noLeak_remainingSample",
